@@ -20,7 +20,8 @@
 
     Rust's [Ordering::{Less,Equal,Greater}] is Coq's [comparison] [Lt | Eq | Gt].
     The correspondence run compares this function with the real one on arbitrary
-    (also unsorted) slices and both comparator orientations (component std.bsearch). *)
+    (also unsorted) slices and both comparator orientations (component std.bsearch).
+    Definitions only; the characterising lemmas are in Proofs/RustStdProofs.v. *)
 From Coq Require Export List NArith ZArith Bool Lia Arith.
 From Coq Require Import ZifyBool ZifyNat.
 Export ListNotations.
@@ -35,7 +36,7 @@ Variable f : T -> comparison.
 
 (** The [while size > 1] loop.  [fuel] bounds the number of iterations (the caller passes
     [len]); [None] = out of fuel or an index outside the slice (undefined behaviour of
-    [get_unchecked]) — [bs_loop_total] shows that neither happens, for any list. *)
+    [get_unchecked]) — [bs_loop_total] (Proofs/RustStdProofs.v) shows that neither happens, for any list. *)
 Fixpoint bs_loop (fuel : nat) (l : list T) (base size : nat) : option nat :=
   if Nat.leb size 1 then Some base else
   match fuel with
@@ -68,133 +69,5 @@ Definition binary_search_by (l : list T) : option bsres :=
           end
       end
   end.
-
-(** ---- totality: the fuel is enough and every index is inside the slice ---- *)
-
-Lemma bs_loop_total fuel l base size :
-  (size <= S fuel)%nat -> (1 <= size)%nat -> (base + size <= length l)%nat ->
-  exists b, bs_loop fuel l base size = Some b /\ (base <= b)%nat /\ (b < base + size)%nat.
-Proof.
-  revert base size; induction fuel as [|fuel IH]; intros base size Hf H1 Hl; cbn [bs_loop].
-  - assert (size = 1)%nat by lia; subst. cbn. exists base. repeat split; lia.
-  - destruct (Nat.leb_spec size 1) as [Hs|Hs].
-    + exists base. repeat split; lia.
-    + assert (Hh : (1 <= size / 2 /\ size / 2 <= size - size / 2 /\ size / 2 < size)%nat).
-      { pose proof (Nat.div_mod size 2 ltac:(lia)) as E.
-        pose proof (Nat.mod_upper_bound size 2 ltac:(lia)). lia. }
-      destruct (nth_error l (base + size / 2)) as [x|] eqn:En.
-      2:{ apply nth_error_None in En. lia. }
-      destruct (f x).
-      * destruct (IH (base + size / 2)%nat (size - size / 2)%nat) as (b & E & B1 & B2); try lia.
-        exists b. repeat split; try assumption; lia.
-      * destruct (IH (base + size / 2)%nat (size - size / 2)%nat) as (b & E & B1 & B2); try lia.
-        exists b. repeat split; try assumption; lia.
-      * destruct (IH base (size - size / 2)%nat) as (b & E & B1 & B2); try lia.
-        exists b. repeat split; try assumption; lia.
-Qed.
-
-Lemma binary_search_by_total l : exists r, binary_search_by l = Some r.
-Proof.
-  unfold binary_search_by. destruct (Nat.eqb_spec (length l) 0) as [|Hn]; [eauto|].
-  destruct (bs_loop_total (length l) l 0 (length l)) as (b & E & _ & B2); try lia.
-  rewrite E. destruct (nth_error l b) as [x|] eqn:En.
-  - destruct (f x); eauto.
-  - apply nth_error_None in En. lia.
-Qed.
-
-(** ---- characterisation on a slice that is partitioned by the comparator ----
-    [l = L ++ E ++ G] with [f = Less] on [L], [Equal] on [E], [Greater] on [G] — that is
-    what "sorted consistently with the comparator" means for [binary_search_by]. *)
-
-Definition k_nongreater (L E : list T) : nat := (length L + length E)%nat.
-
-Lemma bs_loop_partition L E G fuel base size :
-  Forall (fun x => f x = Lt) L -> Forall (fun x => f x = Eq) E -> Forall (fun x => f x = Gt) G ->
-  (size <= S fuel)%nat -> (1 <= size)%nat -> (base + size <= length (L ++ E ++ G))%nat ->
-  (base = 0 \/ base < k_nongreater L E)%nat -> (k_nongreater L E <= base + size)%nat ->
-  bs_loop fuel (L ++ E ++ G) base size = Some (Nat.pred (k_nongreater L E)).
-Proof.
-  intros HL HE HG. unfold k_nongreater.
-  revert base size; induction fuel as [|fuel IH]; intros base size Hf H1 Hl Hb Hk; cbn [bs_loop].
-  - assert (size = 1)%nat by lia; subst. cbn. f_equal. lia.
-  - destruct (Nat.leb_spec size 1) as [Hs|Hs].
-    + f_equal. lia.
-    + assert (Hh : (1 <= size / 2 /\ size / 2 <= size - size / 2 /\ size / 2 < size)%nat).
-      { pose proof (Nat.div_mod size 2 ltac:(lia)) as E0.
-        pose proof (Nat.mod_upper_bound size 2 ltac:(lia)). lia. }
-      set (mid := (base + size / 2)%nat).
-      destruct (nth_error (L ++ E ++ G) mid) as [x|] eqn:En.
-      2:{ apply nth_error_None in En. lia. }
-      (* where is mid? *)
-      destruct (Nat.lt_ge_cases mid (length L)) as [HmL|HmL].
-      { rewrite nth_error_app1 in En by assumption.
-        apply nth_error_In in En. rewrite Forall_forall in HL. rewrite (HL _ En).
-        apply IH; lia. }
-      rewrite nth_error_app2 in En by assumption.
-      destruct (Nat.lt_ge_cases (mid - length L) (length E)) as [HmE|HmE].
-      { rewrite nth_error_app1 in En by assumption.
-        apply nth_error_In in En. rewrite Forall_forall in HE. rewrite (HE _ En).
-        apply IH; lia. }
-      rewrite nth_error_app2 in En by assumption.
-      apply nth_error_In in En. rewrite Forall_forall in HG. rewrite (HG _ En).
-      apply IH; lia.
-Qed.
-
-(** The characterising lemma: on a comparator-partitioned slice the result is [Ok] of the
-    (last) matching index when some element matches, else [Err] of the insertion point. *)
-Theorem binary_search_by_partition L E G :
-  Forall (fun x => f x = Lt) L -> Forall (fun x => f x = Eq) E -> Forall (fun x => f x = Gt) G ->
-  binary_search_by (L ++ E ++ G) =
-  Some (match E with
-        | [] => BErr (length L)
-        | _ => BOk (length L + length E - 1)
-        end).
-Proof.
-  intros HL HE HG. unfold binary_search_by.
-  destruct (Nat.eqb_spec (length (L ++ E ++ G)) 0) as [Hz|Hn].
-  - apply length_zero_iff_nil in Hz. apply app_eq_nil in Hz as [-> Hz].
-    apply app_eq_nil in Hz as [-> ->]. reflexivity.
-  - rewrite (bs_loop_partition L E G) by (try assumption; unfold k_nongreater; rewrite ?app_length in *; lia).
-    unfold k_nongreater.
-    rewrite !app_length in Hn.
-    destruct E as [|e E'].
-    + cbn [length] in *. rewrite Nat.add_0_r.
-      destruct L as [|x0 L'] using rev_ind.
-      * cbn [length app Nat.pred]. destruct G as [|g G']; [cbn in Hn; lia|].
-        cbn [nth_error]. inversion HG; subst. rewrite H1. reflexivity.
-      * clear IHL'. rewrite app_length. cbn [length].
-        replace (Nat.pred (length L' + 1)) with (length L') by lia.
-        rewrite <- app_assoc. rewrite nth_error_app2 by lia. rewrite Nat.sub_diag. cbn [app nth_error].
-        apply Forall_app in HL as [_ HL]. apply Forall_inv in HL. rewrite HL.
-        reflexivity.
-    + set (E := e :: E') in *.
-      assert (HlenE : (1 <= length E)%nat) by (subst E; cbn; lia).
-      rewrite nth_error_app2 by lia.
-      rewrite nth_error_app1 by lia.
-      destruct (nth_error E (Nat.pred (length L + length E) - length L)) as [x|] eqn:En.
-      2:{ apply nth_error_None in En. lia. }
-      apply nth_error_In in En. rewrite Forall_forall in HE. rewrite (HE _ En).
-      f_equal. f_equal. lia.
-Qed.
-
-(** Reading of the result as the statement asked for in DESIGN.md: with at most one
-    matching element, [Ok i] iff element [i] matches, otherwise [Err] of the insertion
-    point (= number of elements ordered before the target). *)
-Corollary binary_search_by_unique L e G :
-  Forall (fun x => f x = Lt) L -> f e = Eq -> Forall (fun x => f x = Gt) G ->
-  binary_search_by (L ++ e :: G) = Some (BOk (length L)).
-Proof.
-  intros HL He HG. change (L ++ e :: G) with (L ++ [e] ++ G).
-  rewrite binary_search_by_partition by (try assumption; repeat constructor; assumption).
-  cbn [length]. f_equal. f_equal. lia.
-Qed.
-
-Corollary binary_search_by_absent L G :
-  Forall (fun x => f x = Lt) L -> Forall (fun x => f x = Gt) G ->
-  binary_search_by (L ++ G) = Some (BErr (length L)).
-Proof.
-  intros HL HG. change (L ++ G) with (L ++ [] ++ G).
-  rewrite binary_search_by_partition by (try assumption; constructor). reflexivity.
-Qed.
 
 End BinarySearch.
